@@ -336,7 +336,7 @@ Lemma fr_set_transmission : forall m p s, fr m s (fst (set_transmission p s)).
 Proof.
   intros; unfold set_transmission. destruct p; cbn; [fr1|].
   destruct (if first then Some [] else incoming (sr (nd s))); cbn; [|fr1].
-  destruct last; cbn; frchain.
+  destruct last; [destruct (snap_ahead _ _)|]; cbn; frchain.
 Qed.
 #[export] Hint Resolve fr_get_transmission fr_cancel_transmission fr_set_transmission : frdb.
 
